@@ -1,3 +1,4 @@
 /- Aggregate: C16 single-call consumption (namespace C16 of C01.lean, C16.lean) and successive calls on streams of documents (C16Seq.lean). -/
 import AJ.Props.C16
 import AJ.Props.C16Seq
+import AJ.Props.C09Doc
